@@ -96,9 +96,9 @@ def replay_cache_key(p):
     if not _h.COMBOS:
         return _res('', {'collisions': 0})
     mi, ci, i, j = _h.COMBOS[p['args'][0]]
-    VALS = [1, 1.0, True, 0, 0.0, False, 2, 2.0, -1, -1.0, '1', '1.0', 'True']
+    VALS = _h.VALS
     a, b = VALS[i], VALS[j]
-    if ci <= 1:
+    if ci <= 1 and not isinstance(a, tuple) and not isinstance(b, tuple):
         # file level: an IDENT attribute without type check (ORIGIN.FILE-TYPE); value a in one file, b in the next
         from dliswriter import DLISFile
 
